@@ -139,20 +139,127 @@ func (ks *vfC18Keys) forClass(c int) (vfC18Key, error) {
 // ------------------------------------------------------------------------------------------------
 // expected certificate of a (key, start): the determinism clause makes it a function of both
 
-var vfC18GenCache sync.Map // key id | start ms | end ms -> [32]byte
+var vfC18GenCache sync.Map // key id | start ms | end ms -> vfC18Gen
 
-func vfC18GenHash(k vfC18Key, start, end time.Time) ([32]byte, error) {
-	ck := fmt.Sprintf("%s|%d|%d", k.id, start.UnixMilli(), end.UnixMilli())
+type vfC18Gen struct {
+	hash [32]byte
+	bad  string // representations of the same (key, instants) that gave other bytes
+}
+
+// vfC18Zones: the Locations in which one and the same instant is presented
+var vfC18Zones = []*time.Location{time.UTC, time.FixedZone("+02:00", 2*3600), time.FixedZone("-08:00", -8*3600), time.FixedZone("+05:45", 5*3600+45*60)}
+
+// vfC18Reps returns several time.Time values denoting the instant of t: other Locations, the process's
+// Local, the wall-clock-only form and one carrying a monotonic reading.
+func vfC18Reps(t time.Time) map[string]time.Time {
+	out := map[string]time.Time{"time.Local=" + time.Local.String(): t.In(time.Local), "stripped": t.Round(0)}
+	for _, z := range vfC18Zones {
+		out[z.String()] = t.In(z)
+	}
+	n := time.Now()
+	out["monotonic"] = n.Add(t.Sub(n))
+	return out
+}
+
+// vfC18GenHash generates the certificate of (key, [start, end]) with the package's generator for every
+// representation of the two instants; the determinism clause makes the bytes a function of the key and the
+// INSTANT only.
+func vfC18GenHash(k vfC18Key, start, end time.Time) ([32]byte, string, error) {
+	ck := fmt.Sprintf("%s|%d|%d|%s", k.id, start.UnixMilli(), end.UnixMilli(), time.Local.String())
 	if v, ok := vfC18GenCache.Load(ck); ok {
-		return v.([32]byte), nil
+		g := v.(vfC18Gen)
+		return g.hash, g.bad, nil
 	}
-	c, _, err := generateCert(k.priv, start, end)
+	c, _, err := generateCert(k.priv, start.UTC(), end.UTC())
 	if err != nil {
-		return [32]byte{}, err
+		return [32]byte{}, "", err
 	}
-	h := sha256.Sum256(c.Raw)
-	vfC18GenCache.Store(ck, h)
-	return h, nil
+	g := vfC18Gen{hash: sha256.Sum256(c.Raw)}
+	ends := vfC18Reps(end)
+	var names []string
+	for name := range ends {
+		names = append(names, name)
+	}
+	sort.Strings(names)
+	for _, name := range names {
+		c2, _, err := generateCert(k.priv, vfC18Reps(start)[name], ends[name])
+		if err != nil {
+			return [32]byte{}, "", err
+		}
+		if h := sha256.Sum256(c2.Raw); h != g.hash {
+			g.bad += fmt.Sprintf("%s -> %s; ", name, vfC18Short(h))
+		}
+	}
+	vfC18GenCache.Store(ck, g)
+	return g.hash, g.bad, nil
+}
+
+// vfC18Registry: every certificate and advertised list observed anywhere in this process, keyed by what the
+// statement says determines it. Walks run with different Locations of the clock, different time.Local and
+// reach a bucket by rolling into it, by starting in it or by restarting in it: all must agree.
+var vfC18Registry sync.Map
+
+type vfC18Seen struct {
+	val string
+	who string
+}
+
+type vfC18RegKey struct {
+	kind, key string
+	at        int64
+	n         int
+}
+
+func vfC18Register(kind string, k vfC18Key, at time.Time, n int, val string, who func() string) *vfC18Seen {
+	rk := vfC18RegKey{kind, k.id, at.UnixNano(), n}
+	prev, loaded := vfC18Registry.Load(rk)
+	if !loaded {
+		prev, loaded = vfC18Registry.LoadOrStore(rk, vfC18Seen{val, who()})
+	}
+	if loaded && prev.(vfC18Seen).val != val {
+		p := prev.(vfC18Seen)
+		return &p
+	}
+	return nil
+}
+
+func vfC18Ordered(l []multihash.DecodedMultihash) []string {
+	out := []string{}
+	for _, e := range l {
+		out = append(out, fmt.Sprintf("%x:%s", e.Code, hex.EncodeToString(e.Digest)[:12]))
+	}
+	return out
+}
+
+// vfC18Rep: how the instants reach the code in one walk
+type vfC18Rep struct {
+	loc   *time.Location // Location of the times the clock returns (nil: as the clock makes them)
+	strip bool           // drop the monotonic reading
+}
+
+func (r vfC18Rep) String() string {
+	l := "native"
+	if r.loc != nil {
+		l = r.loc.String()
+	}
+	return fmt.Sprintf("clock Location %s, monotonic stripped %v, time.Local %s", l, r.strip, time.Local.String())
+}
+
+// vfC18ZoneClock presents the inner clock's instants in another representation.
+type vfC18ZoneClock struct {
+	clock.Clock
+	rep vfC18Rep
+}
+
+func (c vfC18ZoneClock) Now() time.Time {
+	t := c.Clock.Now()
+	if c.rep.loc != nil {
+		t = t.In(c.rep.loc)
+	}
+	if c.rep.strip {
+		t = t.Round(0)
+	}
+	return t
 }
 
 // ------------------------------------------------------------------------------------------------
@@ -385,16 +492,20 @@ type vfC18Sys struct {
 	learnt []vfC18Learned
 	issues []vfC18Issue
 	nobs   int
+	rep    vfC18Rep
 }
 
-func vfC18NewSys(mode string, key vfC18Key, start time.Time) (*vfC18Sys, error) {
-	s := &vfC18Sys{mode: mode, key: key}
+func vfC18NewSys(mode string, key vfC18Key, start time.Time, rep vfC18Rep) (*vfC18Sys, error) {
+	s := &vfC18Sys{mode: mode, key: key, rep: rep}
 	if mode == "mock" {
 		s.mock = clock.NewMock()
+		if rep.loc != nil {
+			start = start.In(rep.loc)
+		}
 		s.mock.Set(start)
-		s.clk = s.mock
+		s.clk = vfC18ZoneClock{s.mock, rep}
 	} else {
-		s.clk = clock.New()
+		s.clk = vfC18ZoneClock{clock.New(), rep}
 		d := start.Sub(time.Now())
 		if d < 0 {
 			return nil, fmt.Errorf("start instant %v lies before the bubble's clock %v", start, time.Now())
@@ -480,11 +591,20 @@ func (s *vfC18Sys) sample() {
 			map[string]any{"continuous": vfC18Short(osh.LeafHash), "notBefore": osh.NB.UTC().String()},
 			map[string]any{"restarted": vfC18Short(o.LeafHash), "notBefore": o.NB.UTC().String()}})
 	}
-	// ... and the certificate is a function of (key, bucket): generating it again gives the same bytes
-	if h, err := vfC18GenHash(s.key, o.NB, o.NA); err == nil && h != o.LeafHash {
-		s.issues = append(s.issues, vfC18Issue{"cert-not-a-function-of-key-and-bucket",
-			"generating the certificate of the served bucket again yields other bytes", vfC18Short(o.LeafHash), vfC18Short(h)})
+	// ... and the certificate is a function of (key, bucket instant): generating it again, with the instants in
+	// any representation, gives the same bytes
+	if h, bad, err := vfC18GenHash(s.key, o.NB, o.NA); err == nil {
+		if h != o.LeafHash {
+			s.issues = append(s.issues, vfC18Issue{"cert-not-a-function-of-key-and-bucket",
+				"generating the certificate of the served bucket again (instants in UTC) yields other bytes than the served one (" + s.rep.String() + ")", vfC18Short(o.LeafHash), vfC18Short(h)})
+		}
+		if bad != "" {
+			s.issues = append(s.issues, vfC18Issue{"cert-depends-on-time-representation",
+				"generateCert(key, start, end) gives other bytes when the same instants are passed in another Location / with or without a monotonic reading", "utc -> " + vfC18Short(h), bad})
+		}
 	}
+	s.crossCheck(s.sh, osh, s.lsh, "continuous manager")
+	s.crossCheck(s.mg, o, s.lmg, "manager")
 	// "an address learned at any time keeps verifying through the current and the following period":
 	// the period structure is the continuous manager's; with the real clock (bubble time) the dialer's
 	// verifier itself is asked, otherwise hash membership
@@ -510,6 +630,64 @@ func (s *vfC18Sys) sample() {
 	if n := len(s.learnt); n == 0 || s.learnt[n-1].addr != o.AddrStr {
 		s.learnt = append(s.learnt, vfC18Learned{addr: o.AddrStr, hashes: o.Addr, period: s.lsh.changes})
 	}
+}
+
+// crossCheck compares what this manager serves and advertises for its bucket with what any manager of the same
+// key - in any walk, under any representation of time, having rolled into the bucket or started in it - showed.
+func (s *vfC18Sys) crossCheck(m *certManager, o vfC18Obs, l *vfC18Ledger, who string) {
+	me := func() string {
+		how := "started in the bucket"
+		if l.changes > 0 {
+			how = "rolled into the bucket"
+		}
+		return fmt.Sprintf("%s that %s, seen at %s (%s)", who, how, o.Now.UTC().Format(time.RFC3339Nano), s.rep.String())
+	}
+	if p := vfC18Register("cert", s.key, o.NB, 0, string(o.LeafHash[:]), me); p != nil {
+		s.issues = append(s.issues, vfC18Issue{"cert-not-a-function-of-key-and-bucket",
+			"two managers of the same host key serve different certificates for the same bucket (NotBefore " + o.NB.UTC().Format(time.RFC3339) + ")",
+			map[string]any{"cert": hex.EncodeToString([]byte(p.val))[:12], "by": p.who}, map[string]any{"cert": vfC18Short(o.LeafHash), "by": me()}})
+	}
+	// the certificate advertised as next is the certificate of the next bucket (in-package: which bucket that is)
+	m.mx.RLock()
+	next := m.nextConfig
+	m.mx.RUnlock()
+	if next != nil && vfC18Has(o.Adv, next.sha256) {
+		me2 := func() string { return "advertised as next by the " + me() }
+		if p := vfC18Register("cert", s.key, next.Start(), 0, string(next.sha256[:]), me2); p != nil {
+			s.issues = append(s.issues, vfC18Issue{"cert-not-a-function-of-key-and-bucket",
+				"the certificate advertised as next for a bucket differs from the certificate another manager of the same host key has for that bucket (NotBefore " + next.Start().UTC().Format(time.RFC3339) + ")",
+				map[string]any{"cert": hex.EncodeToString([]byte(p.val))[:12], "by": p.who}, map[string]any{"cert": vfC18Short(next.sha256), "by": me2()}})
+		}
+	}
+	// advertised lists (with their order) are functions of (key, bucket[, number of entries]) too
+	for _, e := range []struct {
+		kind string
+		l    []multihash.DecodedMultihash
+	}{{"addr", o.Addr}, {"early-data", o.Adv}} {
+		var sb strings.Builder
+		for _, h := range e.l {
+			sb.WriteByte(byte(h.Code))
+			sb.Write(h.Digest)
+		}
+		if p := vfC18Register(e.kind, s.key, o.NB, len(e.l), sb.String(), me); p != nil {
+			cls := "L2:advertised-" + e.kind + "-order-differs-across-managers"
+			if len(p.val) != sb.Len() || vfC18SortedChunks(p.val) != vfC18SortedChunks(sb.String()) {
+				cls = "L2:advertised-" + e.kind + "-set-differs-across-managers"
+			}
+			s.issues = append(s.issues, vfC18Issue{cls, "two managers of the same host key advertise different " + e.kind + " lists while serving the same bucket",
+				map[string]any{"list": hex.EncodeToString([]byte(p.val)), "by": p.who}, map[string]any{"list": vfC18Ordered(e.l), "by": me()}})
+		}
+	}
+}
+
+// vfC18SortedChunks sorts the 33-byte (code, SHA-256 digest) entries of a packed list.
+func vfC18SortedChunks(v string) string {
+	var c []string
+	for i := 0; i+33 <= len(v); i += 33 {
+		c = append(c, v[i:i+33])
+	}
+	sort.Strings(c)
+	return strings.Join(c, "")
 }
 
 func (s *vfC18Sys) takeIssues() []vfC18Issue {
@@ -583,6 +761,7 @@ type vfC18Replayer struct {
 	sys     *vfC18Sys
 	sc      vfC18Scale
 	tick    int
+	rep     vfC18Rep
 	split   bool // sample 1 ms around every model roll instant inside an advance
 	scaleOK bool
 	steps   int
@@ -632,7 +811,7 @@ func (r *vfC18Replayer) compare(exp map[string]any) []vfC18Issue {
 		out := []string{}
 		for _, t := range ticks {
 			st := r.sc.real(t)
-			h, err := vfC18GenHash(s.key, st, st.Add(certValidity))
+			h, _, err := vfC18GenHash(s.key, st, st.Add(certValidity))
 			if err != nil {
 				return nil, err
 			}
@@ -676,7 +855,7 @@ func (r *vfC18Replayer) step(op vfh.Op, st vfC18State, keys *vfC18Keys, mode str
 		}
 		r.sc.Base = vfC18Base(mode, key, seed)
 		r.tick = op.I("t")
-		if r.sys, err = vfC18NewSys(mode, key, r.sc.real(r.tick)); err != nil {
+		if r.sys, err = vfC18NewSys(mode, key, r.sc.real(r.tick), r.rep); err != nil {
 			return nil, err
 		}
 	case "advance":
@@ -716,98 +895,123 @@ func TestVerifC18Replay(t *testing.T) {
 		t.Fatalf("no behaviour files in %q", vfh.In())
 	}
 	sort.Strings(files)
-	res.Rule = "one case = one (source state, action+arguments) transition of the TLC graph executed on the real certManager (mock clock or real clock inside a synctest bubble, plus a never-restarted companion manager); after every step and 1 ms around every roll instant the statement's monitors are evaluated on GetConfig/SerializedCertHashes/AddrComponent, and the model's expectation is compared"
+	res.Rule = "one case = one (source state, action+arguments) transition of the TLC graph executed on the real certManager (mock clock or real clock inside a synctest bubble, plus a never-restarted companion manager; the clock's times in UTC / +02:00 / -08:00 / +05:45 / native Location, with or without monotonic reading, time.Local set to each of these zones in turn); after every step and 1 ms around every roll instant the statement's monitors are evaluated on GetConfig/SerializedCertHashes/AddrComponent, and the model's expectation is compared; every certificate and advertised list seen for a (key, bucket) is compared across all walks (rolled into / started in / restarted in the bucket, any representation)"
 	seed := vfh.Seed()
 	keys := vfC18NewKeys(seed)
 	var mu sync.Mutex
 	machinery := ""
 	nobs := 0
-	t.Run("walks", func(t *testing.T) {
-		for _, f := range files {
-			hdr, walks, err := vfh.LoadWalks(f)
-			if err != nil {
-				t.Fatalf("%s: %v", f, err)
-			}
-			conf, _ := hdr["conf"].(map[string]any)
-			K, VU := 0, 0
-			if conf != nil {
-				kf, _ := conf["K"].(float64)
-				vf, _ := conf["VU"].(float64)
-				K, VU = int(kf), int(vf)
-			}
-			if K < 3 {
-				t.Fatalf("%s: the scale map needs K >= 3 (got %d)", f, K)
-			}
-			scaleOK := time.Duration(VU)*clockSkewAllowance == certValidity
-			if !scaleOK {
-				res.AddMismatch(vfh.Mismatch{Class: "L2:scale", What: fmt.Sprintf("certValidity/clockSkewAllowance = %v, the model instance has %d: model comparison skipped, monitors only", float64(certValidity)/float64(clockSkewAllowance), VU), Walk: -1})
-			}
-			const lanes = 8
-			for lane := 0; lane < lanes; lane++ {
-				t.Run(fmt.Sprintf("%s-%d", filepath.Base(f), lane), func(t *testing.T) {
-					t.Parallel()
-					for wi, w := range walks {
-						if wi%lanes != lane {
-							continue
-						}
-						mode := "mock"
-						if (w.Walk/2)%2 == 1 {
-							mode = "real"
-						}
-						synctest.Test(t, func(t *testing.T) {
-							r := &vfC18Replayer{sc: vfC18Scale{K: K}, split: w.Walk%2 == 0, scaleOK: scaleOK}
-							defer func() {
-								if r.sys != nil {
-									r.sys.close()
-									mu.Lock()
-									nobs += r.sys.nobs
-									mu.Unlock()
-								}
-							}()
-							var prefix []vfh.Op
-							prevKey := string(w.Init)
-							for i, st := range w.Steps {
-								prefix = append(prefix, st.Op)
-								var ms vfC18State
-								if err := json.Unmarshal(st.State, &ms); err != nil {
-									mu.Lock()
-									machinery = err.Error()
-									mu.Unlock()
-									return
-								}
-								is, err := r.step(st.Op, ms, keys, mode, seed)
-								if err != nil {
-									mu.Lock()
-									machinery = fmt.Sprintf("walk %d step %d: %v", w.Walk, i, err)
-									mu.Unlock()
-									return
-								}
-								res.Case(prevKey + "|" + vfh.Canon(st.Op))
-								prevKey = string(st.State)
-								res.Count(0, 1)
-								for _, e := range is {
-									res.AddMismatch(vfh.Mismatch{Class: e.Class, What: e.What, Walk: w.Walk, Step: i, Expected: e.Exp, Got: e.Got,
-										Prefix: append([]vfh.Op{}, prefix...),
-										Cfg: map[string]any{"file": filepath.Base(f), "clock": mode, "split": r.split, "seed": seed,
-											"key_offset": r.sys.key.off.String(), "tick0": r.sc.Base.UTC().String(), "K": K, "VU": VU}})
-								}
-							}
-							res.Count(1, 0)
-							if w.Walk < 2 && len(w.Steps) > 0 {
-								k := min(6, len(w.Steps))
-								res.Sample(map[string]any{"clock": mode, "key_offset": r.sys.key.off.String(), "tick0": r.sc.Base.UTC().String(), "first_steps": w.Steps[:k]})
-							}
-						})
-					}
-				})
-			}
+	type loaded struct {
+		hdr   map[string]any
+		walks []vfh.Walk
+	}
+	var all []loaded
+	for _, f := range files {
+		hdr, walks, err := vfh.LoadWalks(f)
+		if err != nil {
+			t.Fatalf("%s: %v", f, err)
 		}
-	})
+		all = append(all, loaded{hdr, walks})
+	}
+	// The process's time.Local is part of how an instant is represented (time.Unix* return Local times): the
+	// walks are run in phases, each under another Local, restored afterwards.
+	origLocal := time.Local
+	defer func() { time.Local = origLocal }()
+	locals := append([]*time.Location{origLocal}, vfC18Zones[1:]...)
+	scaleNoted := false
+	for ph, local := range locals {
+		time.Local = local
+		t.Run(fmt.Sprintf("walks-local%d", ph), func(t *testing.T) {
+			for fi, f := range files {
+				hdr, walks := all[fi].hdr, all[fi].walks
+				conf, _ := hdr["conf"].(map[string]any)
+				K, VU := 0, 0
+				if conf != nil {
+					kf, _ := conf["K"].(float64)
+					vf, _ := conf["VU"].(float64)
+					K, VU = int(kf), int(vf)
+				}
+				if K < 3 {
+					t.Fatalf("%s: the scale map needs K >= 3 (got %d)", f, K)
+				}
+				scaleOK := time.Duration(VU)*clockSkewAllowance == certValidity
+				if !scaleOK && !scaleNoted {
+					scaleNoted = true
+					res.AddMismatch(vfh.Mismatch{Class: "L2:scale", What: fmt.Sprintf("certValidity/clockSkewAllowance = %v, the model instance has %d: model comparison skipped, monitors only", float64(certValidity)/float64(clockSkewAllowance), VU), Walk: -1})
+				}
+				const lanes = 8
+				for lane := 0; lane < lanes; lane++ {
+					t.Run(fmt.Sprintf("%s-%d", filepath.Base(f), lane), func(t *testing.T) {
+						t.Parallel()
+						for wi, w := range walks {
+							if wi%lanes != lane || (w.Walk/4)%len(locals) != ph {
+								continue
+							}
+							rep := vfC18Rep{strip: (w.Walk/80)%2 == 1}
+							if z := (w.Walk / 16) % (len(vfC18Zones) + 1); z < len(vfC18Zones) {
+								rep.loc = vfC18Zones[z]
+							}
+							mode := "mock"
+							if (w.Walk/2)%2 == 1 {
+								mode = "real"
+							}
+							synctest.Test(t, func(t *testing.T) {
+								r := &vfC18Replayer{sc: vfC18Scale{K: K}, split: w.Walk%2 == 0, scaleOK: scaleOK, rep: rep}
+								defer func() {
+									if r.sys != nil {
+										r.sys.close()
+										mu.Lock()
+										nobs += r.sys.nobs
+										mu.Unlock()
+									}
+								}()
+								var prefix []vfh.Op
+								prevKey := string(w.Init)
+								for i, st := range w.Steps {
+									prefix = append(prefix, st.Op)
+									var ms vfC18State
+									if err := json.Unmarshal(st.State, &ms); err != nil {
+										mu.Lock()
+										machinery = err.Error()
+										mu.Unlock()
+										return
+									}
+									is, err := r.step(st.Op, ms, keys, mode, seed)
+									if err != nil {
+										mu.Lock()
+										machinery = fmt.Sprintf("walk %d step %d: %v", w.Walk, i, err)
+										mu.Unlock()
+										return
+									}
+									res.Case(prevKey + "|" + vfh.Canon(st.Op))
+									prevKey = string(st.State)
+									res.Count(0, 1)
+									for _, e := range is {
+										res.AddMismatch(vfh.Mismatch{Class: e.Class, What: e.What, Walk: w.Walk, Step: i, Expected: e.Exp, Got: e.Got,
+											Prefix: append([]vfh.Op{}, prefix...),
+											Cfg: map[string]any{"file": filepath.Base(f), "clock": mode, "split": r.split, "seed": seed, "time_representation": rep.String(),
+												"key_offset": r.sys.key.off.String(), "tick0": r.sc.Base.UTC().String(), "K": K, "VU": VU}})
+									}
+								}
+								res.Count(1, 0)
+								if w.Walk < 2 && len(w.Steps) > 0 {
+									k := min(6, len(w.Steps))
+									res.Sample(map[string]any{"clock": mode, "key_offset": r.sys.key.off.String(), "tick0": r.sc.Base.UTC().String(), "first_steps": w.Steps[:k]})
+								}
+							})
+						}
+					})
+				}
+			}
+		})
+	}
+	time.Local = origLocal
 	if machinery != "" {
 		t.Fatalf("machinery: %s", machinery)
 	}
 	res.Set("instants_monitored", nobs)
 	res.Set("keys_generated", keys.tries)
+	res.Set("time_local_phases", len(locals))
 }
 
 // ------------------------------------------------------------------------------------------------
@@ -820,7 +1024,7 @@ func TestVerifC18Sweep(t *testing.T) {
 			t.Fatal(err)
 		}
 	}()
-	res.Rule = "one case = one seeded schedule (random Ed25519/secp256k1/ECDSA host key, start instant at millisecond granularity, 14 advances of arbitrary length (up to 200 days) or aimed 1 ms / 1 s around the next expected roll, restarts) on the real certManager with a never-restarted companion; only the statement's monitors decide"
+	res.Rule = "one case = one seeded schedule (random Ed25519/secp256k1/ECDSA host key, start instant at millisecond granularity, 14 advances of arbitrary length (up to 200 days) or aimed 1 ms / 1 s around the next expected roll, restarts; clock times and time.Local in UTC / +02:00 / -08:00 / +05:45, with or without monotonic reading) on the real certManager with a never-restarted companion; only the statement's monitors decide"
 	n := 200
 	if vfh.Thorough() {
 		n = 2000
@@ -830,112 +1034,126 @@ func TestVerifC18Sweep(t *testing.T) {
 	machinery := ""
 	nobs := 0
 	const lanes = 8
-	t.Run("sweep", func(t *testing.T) {
-		for lane := 0; lane < lanes; lane++ {
-			t.Run(fmt.Sprint(lane), func(t *testing.T) {
-				t.Parallel()
-				for i := lane; i < n; i += lanes {
-					rnd := mrand.New(mrand.NewSource(seed*1_000_003 + int64(i)))
-					mode := []string{"mock", "real"}[i%2]
-					var priv ic.PrivKey
-					var err error
-					switch i % 7 {
-					case 5: // offset from the compressed point; key from the seeded stream
-						b := make([]byte, 32)
-						rnd.Read(b)
-						b[0] &= 0x7f
-						priv, err = ic.UnmarshalSecp256k1PrivateKey(b)
-					case 6: // offset from the DER prefix (constant); scalar from the seeded stream
-						b := make([]byte, 32)
-						rnd.Read(b)
-						b[0] &= 0x7f
-						k := &ecdsa.PrivateKey{D: new(big.Int).SetBytes(b)}
-						k.PublicKey.Curve = elliptic.P256()
-						k.PublicKey.X, k.PublicKey.Y = elliptic.P256().ScalarBaseMult(b)
-						priv, _, err = ic.ECDSAKeyPairFromKey(k)
-					default:
-						priv, _, err = ic.GenerateEd25519Key(rnd)
-					}
-					if err != nil {
-						t.Fatal(err)
-					}
-					key, err := vfC18MkKey(priv)
-					if err != nil {
-						t.Fatal(err)
-					}
-					var start time.Time
-					if mode == "real" {
-						start = time.Date(2000, 1, 20, 0, 0, 0, 0, time.UTC).Add(time.Duration(rnd.Int63n(int64(60*24*time.Hour/time.Millisecond))) * time.Millisecond)
-					} else {
-						start = time.Date(2001, 1, 1, 0, 0, 0, 0, time.UTC).Add(time.Duration(rnd.Int63n(int64(40*365*24*time.Hour/time.Millisecond))) * time.Millisecond)
-					}
-					var log []string
-					synctest.Test(t, func(t *testing.T) {
-						s, err := vfC18NewSys(mode, key, start)
-						if err != nil {
-							mu.Lock()
-							machinery = err.Error()
-							mu.Unlock()
-							return
+	origLocal := time.Local
+	defer func() { time.Local = origLocal }()
+	locals := append([]*time.Location{origLocal}, vfC18Zones[1:]...)
+	for ph, local := range locals {
+		time.Local = local
+		t.Run(fmt.Sprintf("sweep-local%d", ph), func(t *testing.T) {
+			for lane := 0; lane < lanes; lane++ {
+				t.Run(fmt.Sprint(lane), func(t *testing.T) {
+					t.Parallel()
+					for i := lane; i < n; i += lanes {
+						if (i/2)%len(locals) != ph {
+							continue
 						}
-						defer s.close()
-						log = append(log, "start "+start.UTC().Format(time.RFC3339Nano))
-						s.sample()
-						steps := 0
-						for j := 0; j < 14 && len(s.issues) == 0; j++ {
-							var d time.Duration
-							switch rnd.Intn(4) {
-							case 0: // anywhere within 40 days (now and then 200 days: many rolls in one move)
-								span := 40 * 24 * time.Hour
-								if rnd.Intn(6) == 0 {
-									span = 200 * 24 * time.Hour
-								}
-								d = time.Duration(rnd.Int63n(int64(span/time.Millisecond))) * time.Millisecond
-							case 1: // within two hours
-								d = time.Duration(rnd.Int63n(int64(2*time.Hour/time.Millisecond))) * time.Millisecond
-							default: // around the instant at which the continuous manager's certificate has one skew left
-								o := vfC18Observe(s.sh, s.now())
-								d = o.NA.Add(-vfC18Skew).Sub(s.now()) + []time.Duration{-time.Second, -time.Millisecond, 0, time.Millisecond, time.Second, time.Hour - time.Millisecond, time.Hour, time.Hour + time.Millisecond}[rnd.Intn(8)]
-								if d < 0 {
-									d = time.Millisecond
-								}
-							}
-							restart := rnd.Intn(5) == 0
-							if restart {
-								s.restartBegin()
-							}
-							if err := s.advanceTo(s.now().Add(d)); err != nil {
+						rep := vfC18Rep{strip: (i/40)%2 == 1}
+						if z := (i / 8) % (len(vfC18Zones) + 1); z < len(vfC18Zones) {
+							rep.loc = vfC18Zones[z]
+						}
+						rnd := mrand.New(mrand.NewSource(seed*1_000_003 + int64(i)))
+						mode := []string{"mock", "real"}[i%2]
+						var priv ic.PrivKey
+						var err error
+						switch i % 7 {
+						case 5: // offset from the compressed point; key from the seeded stream
+							b := make([]byte, 32)
+							rnd.Read(b)
+							b[0] &= 0x7f
+							priv, err = ic.UnmarshalSecp256k1PrivateKey(b)
+						case 6: // offset from the DER prefix (constant); scalar from the seeded stream
+							b := make([]byte, 32)
+							rnd.Read(b)
+							b[0] &= 0x7f
+							k := &ecdsa.PrivateKey{D: new(big.Int).SetBytes(b)}
+							k.PublicKey.Curve = elliptic.P256()
+							k.PublicKey.X, k.PublicKey.Y = elliptic.P256().ScalarBaseMult(b)
+							priv, _, err = ic.ECDSAKeyPairFromKey(k)
+						default:
+							priv, _, err = ic.GenerateEd25519Key(rnd)
+						}
+						if err != nil {
+							t.Fatal(err)
+						}
+						key, err := vfC18MkKey(priv)
+						if err != nil {
+							t.Fatal(err)
+						}
+						var start time.Time
+						if mode == "real" {
+							start = time.Date(2000, 1, 20, 0, 0, 0, 0, time.UTC).Add(time.Duration(rnd.Int63n(int64(60*24*time.Hour/time.Millisecond))) * time.Millisecond)
+						} else {
+							start = time.Date(2001, 1, 1, 0, 0, 0, 0, time.UTC).Add(time.Duration(rnd.Int63n(int64(40*365*24*time.Hour/time.Millisecond))) * time.Millisecond)
+						}
+						var log []string
+						synctest.Test(t, func(t *testing.T) {
+							s, err := vfC18NewSys(mode, key, start, rep)
+							if err != nil {
 								mu.Lock()
 								machinery = err.Error()
 								mu.Unlock()
 								return
 							}
-							if restart {
-								if err := s.restartEnd(); err != nil {
+							defer s.close()
+							log = append(log, "start "+start.UTC().Format(time.RFC3339Nano))
+							s.sample()
+							steps := 0
+							for j := 0; j < 14 && len(s.issues) == 0; j++ {
+								var d time.Duration
+								switch rnd.Intn(4) {
+								case 0: // anywhere within 40 days (now and then 200 days: many rolls in one move)
+									span := 40 * 24 * time.Hour
+									if rnd.Intn(6) == 0 {
+										span = 200 * 24 * time.Hour
+									}
+									d = time.Duration(rnd.Int63n(int64(span/time.Millisecond))) * time.Millisecond
+								case 1: // within two hours
+									d = time.Duration(rnd.Int63n(int64(2*time.Hour/time.Millisecond))) * time.Millisecond
+								default: // around the instant at which the continuous manager's certificate has one skew left
+									o := vfC18Observe(s.sh, s.now())
+									d = o.NA.Add(-vfC18Skew).Sub(s.now()) + []time.Duration{-time.Second, -time.Millisecond, 0, time.Millisecond, time.Second, time.Hour - time.Millisecond, time.Hour, time.Hour + time.Millisecond}[rnd.Intn(8)]
+									if d < 0 {
+										d = time.Millisecond
+									}
+								}
+								restart := rnd.Intn(5) == 0
+								if restart {
+									s.restartBegin()
+								}
+								if err := s.advanceTo(s.now().Add(d)); err != nil {
 									mu.Lock()
 									machinery = err.Error()
 									mu.Unlock()
 									return
 								}
+								if restart {
+									if err := s.restartEnd(); err != nil {
+										mu.Lock()
+										machinery = err.Error()
+										mu.Unlock()
+										return
+									}
+								}
+								log = append(log, fmt.Sprintf("%s %v -> %s", map[bool]string{false: "advance", true: "restart after"}[restart], d, s.now().UTC().Format(time.RFC3339Nano)))
+								s.sample()
+								steps++
 							}
-							log = append(log, fmt.Sprintf("%s %v -> %s", map[bool]string{false: "advance", true: "restart after"}[restart], d, s.now().UTC().Format(time.RFC3339Nano)))
-							s.sample()
-							steps++
-						}
-						res.Count(1, steps)
-						mu.Lock()
-						nobs += s.nobs
-						mu.Unlock()
-						for _, e := range s.takeIssues() {
-							res.AddMismatch(vfh.Mismatch{Class: e.Class, What: e.What, Walk: -1, Step: steps, Expected: e.Exp, Got: e.Got, Prefix: log,
-								Cfg: map[string]any{"schedule": i, "clock": mode, "seed": seed, "key_type": priv.Type().String(), "key_offset": key.off.String()}})
-						}
-					})
-					res.Case(fmt.Sprintf("sweep-%d", i))
-				}
-			})
-		}
-	})
+							res.Count(1, steps)
+							mu.Lock()
+							nobs += s.nobs
+							mu.Unlock()
+							for _, e := range s.takeIssues() {
+								res.AddMismatch(vfh.Mismatch{Class: e.Class, What: e.What, Walk: -1, Step: steps, Expected: e.Exp, Got: e.Got, Prefix: log,
+									Cfg: map[string]any{"schedule": i, "clock": mode, "seed": seed, "time_representation": rep.String(), "key_type": priv.Type().String(), "key_offset": key.off.String()}})
+							}
+						})
+						res.Case(fmt.Sprintf("sweep-%d", i))
+					}
+				})
+			}
+		})
+	}
+	time.Local = origLocal
 	if machinery != "" {
 		t.Fatalf("machinery: %s", machinery)
 	}
